@@ -32,7 +32,7 @@ const nClasses = 4
 
 // Op is one operation of a history.
 type Op struct {
-	K     string `json:"k"`               // def | rem | call
+	K     string `json:"k"`               // def | rem | call | cam (compute-applicable-methods)
 	Qual  string `json:"q,omitempty"`     // "" | before | after | around
 	Specs []int  `json:"specs,omitempty"` // class index per required argument, -1 = t
 	ID    int    `json:"id,omitempty"`    // method id (def)
@@ -127,6 +127,9 @@ func genOp(r *tape.Rand, arity int, nextID *int, wDef, wRem, wCall int, builtin 
 		if r.Pct(6) && !builtin {
 			a[i] = nClasses // nil: only a method specialized on t applies
 		}
+	}
+	if r.Pct(12) {
+		return Op{K: "cam", Args: a}
 	}
 	return Op{K: "call", Args: a}
 }
@@ -381,6 +384,8 @@ func rank(spec, arg int) int {
 }
 
 type expect struct {
+	nAround, nBefore, nAfter, nPrimary int
+
 	trace     string
 	value     string
 	noMethod  bool // no applicable method at all
@@ -438,7 +443,7 @@ func dispatch(t table, args []int, builtin bool) expect {
 	for _, m := range befores {
 		inner = append(inner, fmt.Sprintf("b%d", m.id))
 	}
-	ex := expect{value: "nil"}
+	ex := expect{value: "nil", nAround: len(arounds), nBefore: len(befores), nAfter: len(afters), nPrimary: len(primaries)}
 	if len(primaries) > 0 {
 		inner = append(inner, fmt.Sprintf("p%d", primaries[0].id))
 		ex.value = fmt.Sprint(primaries[0].id)
@@ -499,6 +504,20 @@ func step(state string, in Op, out output, builtin bool) (bool, string, string) 
 		return true, state, ""
 	}
 	ex := dispatch(t, in.Args, builtin)
+	if in.K == "cam" {
+		// compute-applicable-methods: as many :around, :before and :after
+		// methods as are applicable, and a primary iff one is applicable
+		if out.Cond != "" {
+			return false, state, fmt.Sprintf("compute-applicable-methods signalled %s: %s", out.Cond, out.Msg)
+		}
+		var a, b, f, p int
+		fmt.Sscanf(out.Trace, "cam %d %d %d %d", &a, &b, &f, &p)
+		if a != ex.nAround || b != ex.nBefore || f != ex.nAfter || (p > 0) != (ex.nPrimary > 0) {
+			return false, state, fmt.Sprintf("compute-applicable-methods returned %d :around, %d :before, %d :after and %d primary methods; applicable are %d, %d, %d and %d",
+				a, b, f, p, ex.nAround, ex.nBefore, ex.nAfter, ex.nPrimary)
+		}
+		return true, state, ""
+	}
 	switch {
 	case ex.noMethod:
 		if out.Cond == "" {
@@ -658,6 +677,9 @@ func (w *world) source(op Op) string {
 		}
 		as = append(as, w.insts[a])
 	}
+	if op.K == "cam" {
+		return fmt.Sprintf("(compute-applicable-methods '%s (list %s))", w.gf, strings.Join(as, " "))
+	}
 	return fmt.Sprintf("(%s %s)", w.gf, strings.Join(as, " "))
 }
 
@@ -678,6 +700,9 @@ func showOp(op Op) string {
 		return fmt.Sprintf("defmethod#%d %s%v", op.ID, map[string]string{"": "primary"}[op.Qual]+op.Qual, op.Specs)
 	case "rem":
 		return fmt.Sprintf("remove %s%v", map[string]string{"": "primary"}[op.Qual]+op.Qual, op.Specs)
+	}
+	if op.K == "cam" {
+		return fmt.Sprintf("compute-applicable-methods%v", op.Args)
 	}
 	return fmt.Sprintf("call%v", op.Args)
 }
@@ -755,6 +780,26 @@ func (e *engine) Execute(raw json.RawMessage) (vd harness.Verdict) {
 			out := output{Trace: strings.Join(lw.Traces[id], " "), Value: res.Value, Cond: res.Cond, Msg: res.Msg}
 			if op.K != "call" {
 				out.Value = "" // a printed method object contains a heap address
+			}
+			if op.K == "cam" && res.Cond == "" {
+				var a, b, f, p int
+				if lst, ok := res.Raw.(slip.List); ok {
+					for _, o := range lst {
+						if m, isM := o.(*slip.Method); isM && len(m.Combinations) > 0 {
+							switch c := m.Combinations[0]; {
+							case c.Wrap != nil:
+								a++
+							case c.Before != nil:
+								b++
+							case c.After != nil:
+								f++
+							case c.Primary != nil:
+								p++
+							}
+						}
+					}
+				}
+				out.Trace = fmt.Sprintf("cam %d %d %d %d", a, b, f, p)
 			}
 			rt := s.Seq()
 			recs = append(recs, rec{task: ti, op: op, out: out, call: call, rt: rt})
@@ -897,7 +942,11 @@ func (e *engine) Execute(raw json.RawMessage) (vd harness.Verdict) {
 			pin()
 			var hist []string
 			for _, r := range recs {
-				hist = append(hist, fmt.Sprintf("r%d[%d,%d] %s -> [%s] %s%s", r.task, r.call, r.rt, showOp(r.op), r.out.Trace, r.out.Value, r.out.Cond))
+				cond := r.out.Cond
+				if cond != "" {
+					cond += " (" + r.out.Msg + ")"
+				}
+				hist = append(hist, fmt.Sprintf("r%d[%d,%d] %s -> [%s] %s%s", r.task, r.call, r.rt, showOp(r.op), r.out.Trace, r.out.Value, cond))
 			}
 			for _, r := range quiet {
 				hist = append(hist, fmt.Sprintf("after all: %s -> [%s] %s%s", showOp(r.op), r.out.Trace, r.out.Value, r.out.Cond))
